@@ -164,7 +164,7 @@ theorem rootR_length (dt : Data) (s : ℕ) (f : DF) : (rootR dt s f).length = dt
 /-- the data point `j` has positive likelihood on the whole grid in every sample and an outlier
 prior in `[0,1)` -/
 def GoodIdx (dt : Data) (j : ℕ) : Prop :=
-  (∀ s k, k < dt.G → 0 < getQ (dt.L j s) k) ∧ 0 ≤ dt.opOf j ∧ dt.opOf j < 1
+  (∀ s, s < dt.S → ∀ k, k < dt.G → 0 < getQ (dt.L j s) k) ∧ 0 ≤ dt.opOf j ∧ dt.opOf j < 1
 
 /-- all data points mentioned by the tree are good -/
 def Good (dt : Data) (f : DF) (out : List ℕ) : Prop := ∀ j, j ∈ f.all ++ out → GoodIdx dt j
@@ -244,12 +244,13 @@ theorem outlierPriorOut_pos (dt : Data) (l : List ℕ) (h : ∀ j ∈ l, GoodIdx
 theorem outlierMarg1_pos (dt : Data) (hG : 0 < dt.G) (i : ℕ) (h : GoodIdx dt i) : 0 < outlierMarg1 dt i := by
   unfold outlierMarg1
   refine prodL_pos _ fun x hx => ?_
-  obtain ⟨s, _, rfl⟩ := List.mem_map.1 hx
+  obtain ⟨s, hs, rfl⟩ := List.mem_map.1 hx
+  have hsS : s < dt.S := List.mem_range.1 hs
   refine vsum_pos _ (rootR_mem_pos dt hG s _ ?_) ?_
   · intro j hj k hk
     have : j = i := by simpa [Forest.all] using hj
     subst this
-    exact h.1 s k hk
+    exact h.1 s hsS k hk
   · apply List.ne_nil_of_length_pos; rw [rootR_length]; exact hG
 
 theorem outlierMarg_pos (dt : Data) (hG : 0 < dt.G) (out : List ℕ) (h : ∀ j ∈ out, GoodIdx dt j) :
@@ -264,8 +265,9 @@ theorem dataMarg_pos (dt : Data) (hG : 0 < dt.G) (f : DF) (h : ∀ j ∈ f.all, 
   split
   · exact one_pos
   · refine prodL_pos _ fun x hx => ?_
-    obtain ⟨s, _, rfl⟩ := List.mem_map.1 hx
-    refine vsum_pos _ (rootR_mem_pos dt hG s f fun j hj k hk => (h j hj).1 s k hk) ?_
+    obtain ⟨s, hs, rfl⟩ := List.mem_map.1 hx
+    have hsS : s < dt.S := List.mem_range.1 hs
+    refine vsum_pos _ (rootR_mem_pos dt hG s f fun j hj k hk => (h j hj).1 s hsS k hk) ?_
     apply List.ne_nil_of_length_pos; rw [rootR_length]; exact hG
 
 theorem dataOne_pos (dt : Data) (hG : 0 < dt.G) (f : DF) (h : ∀ j ∈ f.all, GoodIdx dt j) : 0 < dataOne dt f := by
@@ -273,8 +275,9 @@ theorem dataOne_pos (dt : Data) (hG : 0 < dt.G) (f : DF) (h : ∀ j ∈ f.all, G
   split
   · exact one_pos
   · refine prodL_pos _ fun x hx => ?_
-    obtain ⟨s, _, rfl⟩ := List.mem_map.1 hx
-    refine getQ_pos_of_mem _ _ (rootR_mem_pos dt hG s f fun j hj k hk => (h j hj).1 s k hk) ?_
+    obtain ⟨s, hs, rfl⟩ := List.mem_map.1 hx
+    have hsS : s < dt.S := List.mem_range.1 hs
+    refine getQ_pos_of_mem _ _ (rootR_mem_pos dt hG s f fun j hj k hk => (h j hj).1 s hsS k hk) ?_
     rw [rootR_length]; omega
 
 theorem common_pos (dt : Data) (hG : 0 < dt.G) (α : ℚ) (hα : 0 < α) (f : DF) (out : List ℕ)
